@@ -1,4 +1,5 @@
 import CalVerif.Lemmas.BiffStrings
+import CalVerif.Lemmas.BiffSstCells
 /-! # C12 — XLS strings decode identically however records are split and characters packed
 
     Property theorems only (helper lemmas live in `Lemmas/BiffStrings.lean`).
@@ -175,6 +176,80 @@ theorem sst_text_roundtrip (cstTotal : Nat) (texts : List (List Nat)) (table : L
   intro t ht
   exact utf16_roundtrip t (hscalar t ht)
 
+/-! ## the cells that refer to the table (composition with C02's worksheet model) -/
+
+/-- **every cell that refers to a shared string is unaffected by the layout of the table.**
+    A workbook stream = globals substream (any records `pre` whose arms succeed, the SST + CONTINUE records of
+    `table` under a legal layout, more such records `post`, EOF) followed by the sheet substreams `sheets`.
+    `BiffWorkbook.workbookSheet` = `parse_workbook` as far as strings go: the globals loop's `strings`
+    (C12's `parseSst` on the gathered record), then C02's worksheet loop `BiffCells.sheetRange` with
+    `env.strings = strings` on the substream at the sheet's offset.
+    (1) For ANY two legal layouts (break sets, per-segment packings, cstTotal) of the same table — rich-text runs
+        and extended blocks included — every sheet substream decodes to the same `Range`: both equal the range read
+        with `strings` = the stored texts. The offsets differ (`p1`, `p2`: the SST has another size) but point at
+        the same bytes.
+    (2) Under that table a LABELSST record with index `i` gives its cell exactly the text of `table[i]`
+        (`parse_label_sst`: `strings[i]`). -/
+theorem labelsst_cells_layout_independent (arm : Rec → Res Unit) (env0 : BiffCells.Env)
+    (t1 t2 : Nat) (table : List Entry) (l1 l2 : List EntryLayout)
+    (h1 : Legal t1 table l1) (h2 : Legal t2 table l2)
+    (pre post : List (Nat × Bytes))
+    (hpre : ∀ p ∈ pre, BiffWorkbook.inertRec arm p) (hpost : ∀ p ∈ post, BiffWorkbook.inertRec arm p)
+    (sheets : Bytes) (hsheets : notCont sheets) (p1 p2 : Nat)
+    (hp1 : p1 ≤ (BiffWorkbook.wbStream t1 table l1 pre post sheets).length)
+    (hp2 : p2 ≤ (BiffWorkbook.wbStream t2 table l2 pre post sheets).length)
+    (hsame : (BiffWorkbook.wbStream t1 table l1 pre post sheets).drop p1 =
+             (BiffWorkbook.wbStream t2 table l2 pre post sheets).drop p2) :
+    (BiffWorkbook.workbookSheet arm env0 (BiffWorkbook.wbStream t1 table l1 pre post sheets) p1 =
+        BiffCells.sheetRange { env0 with strings := table.map fun e => decodeUtf16 e.units }
+          ((BiffWorkbook.wbStream t1 table l1 pre post sheets).drop p1))
+    ∧ (BiffWorkbook.workbookSheet arm env0 (BiffWorkbook.wbStream t1 table l1 pre post sheets) p1 =
+        BiffWorkbook.workbookSheet arm env0 (BiffWorkbook.wbStream t2 table l2 pre post sheets) p2)
+    ∧ (∀ (i row col xf : Nat) (e : Entry), table[i]? = some e → row < 65536 → col < 65536 →
+        BiffCells.parseLabelSst { env0 with strings := table.map fun e => decodeUtf16 e.units }
+            (BiffWorkbook.labelSstData row col xf i)
+          = .ok (some (row, col, BiffCells.Val.str (decodeUtf16 e.units)))) := by
+  have e1 := BiffWorkbook.workbookSheet_encode arm env0 t1 table l1 h1 pre post hpre hpost sheets hsheets p1 hp1
+  have e2 := BiffWorkbook.workbookSheet_encode arm env0 t2 table l2 h2 pre post hpre hpost sheets hsheets p2 hp2
+  refine ⟨e1, ?_, ?_⟩
+  · rw [e1, e2, hsame]
+  · intro i row col xf e he hr hc
+    have hi : i < 4294967296 := by
+      have : i < table.length := by
+        rcases Nat.lt_or_ge i table.length with h | h
+        · exact h
+        · rw [List.getElem?_eq_none h] at he; cases he
+      have := h1.count; omega
+    exact BiffWorkbook.parseLabelSst_entry _ row col xf i (decodeUtf16 e.units) hr hc hi (by simp [he])
+
+/-- the sheet offsets of `labelsst_cells_layout_independent` exist: the substream `k` bytes into `sheets` sits
+    at (length of the globals) + `k` in either stream -/
+theorem sheet_offsets_exist (t : Nat) (table : List Entry) (l : List EntryLayout)
+    (pre post : List (Nat × Bytes)) (sheets : Bytes) (k : Nat) :
+    (BiffWorkbook.wbStream t table l pre post sheets).drop
+        ((BiffWorkbook.wbStream t table l pre post []).length + k) = sheets.drop k :=
+  BiffWorkbook.wbStream_drop t table l pre post sheets k
+
+/-- a LABEL cell (inline XLUnicodeString, either packing, the empty string included) holds the stored text:
+    `parse_label` = cell header + `parse_string` (`string_roundtrip` below) -/
+theorem label_cell_text (row col xf : Nat) (wide : Bool) (us : List Nat) (trail : Bytes)
+    (hr : row < 65536) (hc : col < 65536)
+    (hlt : ∀ u ∈ us, u < 65536) (hcch : us.length < 65536) (hpack : wide = false → ∀ u ∈ us, u < 256) :
+    BiffCells.parseLabel (le16 row ++ (le16 col ++ (le16 xf ++ (xlUnicodeString wide us ++ trail))))
+      = .ok (row, col, BiffCells.Val.str (decodeUtf16 us)) :=
+  BiffWorkbook.parseLabel_text row col xf wide us trail hr hc hlt hcch hpack
+
+/-! The four carriers the property lists, and where each is proved:
+    * shared-string table entries — `sst_roundtrip(_in_stream)`, `sst_layout_independent`, `sst_text_roundtrip`;
+      the cells that refer to them — `labelsst_cells_layout_independent` (above);
+    * label values — `label_cell_text` (above; C02's `step_label` / `biff_sheet_roundtrip` place the cell in the range);
+    * formula-string values — the STRING (0x0207) arm is `parse_string(r.data)` on the whole payload, i.e.
+      `string_roundtrip` below with `trail = []` (C02's `step_string` attaches it to the FORMULA position);
+    * sheet names — the BoundSheet8 arm is `parse_short_string` on `r.data[6..]`, i.e. `short_string_roundtrip`
+      below, followed by the deliberate removal of NUL characters; the whole record is C16's
+      `boundsheet_roundtrip` / `boundsheet_name_exact` (Props/C16.lean, on the same `Biff.parseShortString`).
+    BIFF5 byte strings (code pages other than 1200) are outside the model: exercised by the harness only. -/
+
 /-! ## strings inside one record (sheet names, LABEL / STRING values) -/
 
 /-- an XLUnicodeString (cch u16, flags, characters in either packing; the empty string included) followed by
@@ -237,6 +312,24 @@ example : frameSst (encodeSst 3 exTable exLayoutA) ≠ frameSst (encodeSst 2 exT
 example : sstFromStream 1 (frameSst (encodeSst 3 exTable exLayoutA)) = .ok [[0x61, 0x62, 0x20], [0x1F600]] :=
   sst_roundtrip 3 exTable exLayoutA (by decide) 0
 example : parseString (xlUnicodeString false [] ++ [7]) true = .ok [] := by decide
+/-- workbook level: globals = BOF, CODEPAGE, the example table under layout A resp. B, EOF; one sheet with a
+    LABELSST cell at (2,3) naming string 1: the two workbooks give the sheet the same range -/
+def exPre : List (Nat × Bytes) := [(0x0809, [0, 6, 5, 0]), (0x0042, [0xB0, 4])]
+def exSheets : Bytes :=
+  frameRec 0x0809 [0, 6, 0x10, 0] [] ++ (frameRec 0x00FD (BiffWorkbook.labelSstData 2 3 0 1) [] ++ frameRec 0x000A [] [])
+
+example (env0 : BiffCells.Env) :
+    BiffWorkbook.workbookSheet (fun _ => .ok ()) env0 (BiffWorkbook.wbStream 3 exTable exLayoutA exPre [] exSheets)
+        ((BiffWorkbook.wbStream 3 exTable exLayoutA exPre [] []).length + 0) =
+    BiffWorkbook.workbookSheet (fun _ => .ok ()) env0 (BiffWorkbook.wbStream 2 exTable exLayoutB exPre [] exSheets)
+        ((BiffWorkbook.wbStream 2 exTable exLayoutB exPre [] []).length + 0) := by
+  refine (labelsst_cells_layout_independent (fun _ => .ok ()) env0 3 2 exTable exLayoutA exLayoutB (by decide) (by decide)
+    exPre [] ?_ (by simp) exSheets (by unfold notCont; decide) _ _ (by decide) (by decide) ?_).2.1
+  · intro p hp
+    simp only [exPre, List.mem_cons, List.mem_nil_iff, or_false] at hp
+    rcases hp with rfl | rfl <;> (unfold BiffWorkbook.inertRec; decide)
+  · rw [sheet_offsets_exist, sheet_offsets_exist]
+
 /-- a break inside the surrogate pair is not legal -/
 example : ¬ Legal 1 [{ units := [0xD83D, 0xDE00] }] [{ wide0 := true, cuts := [(1, true)] }] := by decide
 
